@@ -376,8 +376,13 @@ def run(ctx):
     for ci, (fam, setting, pmeta, species, inter) in enumerate(meta):
         c = cases[ci]
         inf = infos.get(ci, {})
-        eq = inf.get("equivalent", "e")[1:]
+        eq, ch = "", 0
+        while "equivalent%d" % ch in inf:
+            eq += inf["equivalent%d" % ch][1:]
+            ch += 1
         order = inf.get("order", 0)
+        if order and len(eq) != len(c["pairs"]):
+            raise tlc.TLCError("TLC reported %d equivalence verdicts for %d pairs (%s)" % (len(eq), len(c["pairs"]), setting))
         ctx.case("group|" + setting, nontrivial=order > 1)
         stats["operations_checked"] += len(c["ops"])
         groupfails, pairfails = [], {}
